@@ -24,13 +24,14 @@ open Rich
 inductive Flag where
   | headIsPair        -- `((X) …)`: `translate_head` RUNS the head (or refuses it); clvmr applies X to unevaluated args
   | nilHead           -- `(() …)`: refused at once ("cannot apply nil"); clvmr evaluates the operands first
+  | refusedOp         -- operator atom that is not the minimal encoding of its value (0x0004, 0x00): refused at
+                      -- once ("unknown operator"); clvmr evaluates the operands first, then refuses it as well
   | opByName          -- operator atom / string found in the prim map by the bytes of its NAME ("+", "sha256")
-  | intIsName         -- operator INTEGER whose encoding spells a primitive's name (43 = "+"; the opcodes
-                      -- 61 `%` = "=" and 62 `keccak256` = ">" are re-read as those other operators)
-  | nonCanonicalOp    -- operator atom whose bytes are not the encoding of its integer value (0x0004)
-  | nonCanonicalPath  -- path atom read as a different number than clvmr reads (redundant 0xff prefix)
-  | zeroPath          -- a path of value 0 not spelled `Nil`: "bad path" here, nil in clvmr
-  | legacyZero        -- `truthy` (legacy integer mode) calls a non-empty all-zero atom false; clvmr calls it true
+  | intSpellsName     -- operator INTEGER that is no primitive's opcode but whose encoding spells a primitive's
+                      -- name (43 = "+"); an integer that IS an opcode (61 `%` = "=", 62 `keccak256` = ">")
+                      -- is left alone
+  | legacyZero        -- legacy integer mode: `truthy` calls a non-empty all-zero atom false (clvmr: true), and
+                      -- `Integer 0` is the atom 0x00 for clvmr (an empty operator atom is applied as 0x00)
   deriving DecidableEq, Repr, Inhabited
 
 /-- classes of `RunFailure::RunErr` messages. -/
@@ -182,25 +183,31 @@ def evalArgs (m : Mode) (head b ctx : Rich) (parent : Config) : Except RunErr Co
   | some (t, stack) => .ok (.op head ctx t (some stack) parent)
   | none => .error .arglist
 
-/-- the `SExp::Integer` case of `translate_head` -/
+/-- `prim_map.values().any(|p| matches!(p, SExp::Integer(_, n) if n == i))` -/
+def isOpcode (pm : PrimMap) (i : Int) : Bool := pm.any (fun p => p.2 == i)
+
+/-- the `SExp::Integer` case of `translate_head`: an integer that already is a primitive's opcode
+    is not re-read as a name. -/
 def translateInt (pm : PrimMap) (i : Int) : Rich :=
   match pm.lookup (Bytes.ofInt i) with
   | none => .int i
-  | some v => .int v
+  | some v => if isOpcode pm i then .int i else .int v
 
-/-- the `SExp::Atom` case of `translate_head` (a `QuotedString` is turned into an `Atom` first) -/
-def translateBytes (pm : PrimMap) (v : Bytes) : Rich :=
+/-- the `SExp::Atom` case of `translate_head` (a `QuotedString` is turned into an `Atom` first):
+    an atom that is no name and not the minimal encoding of its value (`0 ↦ []`, else
+    `u8_from_number`) is refused ("unknown operator …"). -/
+def translateBytes (pm : PrimMap) (v : Bytes) : Except RunErr Rich :=
   match pm.lookup v with
-  | none => translateInt pm (Bytes.toInt v)
-  | some x => .int x
+  | none => if Bytes.canonical v then .ok (translateInt pm (Bytes.toInt v)) else .error (.op "unknown operator")
+  | some x => .ok (.int x)
 
 /-- `translate_head`; `hr` is the recursive `run` used for `Cons(_, _, Nil)` heads. -/
 def translateHead (hr : Rich → Rich → Except RunErr Rich) (pm : PrimMap) (sexp ctx : Rich) :
     Except RunErr Rich :=
   match sexp with
   | .nil => .error .nilhead
-  | .qstr _ v => .ok (translateBytes pm v)
-  | .atom v => .ok (translateBytes pm v)
+  | .qstr _ v => translateBytes pm v
+  | .atom v => translateBytes pm v
   | .int i => .ok (translateInt pm i)
   | .cons a .nil => hr (.cons a .nil) ctx
   | .cons _ _ => .error .headform
@@ -276,11 +283,13 @@ def runStep (hr : Rich → Rich → Except RunErr Rich) (m : Mode) (pm : PrimMap
   | .opResult x p => .ok (combineDone x p)
   | .done x => .ok (.done x)
   | .step (.int v) ctx p =>
-    match choosePath (flattenSignedInt v) ctx with
-    | some r => .ok (.opResult r (.step (.int v) ctx p))
-    | none => .error .path
-  | .step (.qstr _ v) ctx p => .ok (.step (.int (Bytes.toInt v)) ctx p)
-  | .step (.atom v) ctx p => .ok (.step (.int (Bytes.toInt v)) ctx p)
+    if flattenSignedInt v = 0 then .ok (.opResult .nil (.step (.int v) ctx p))
+    else
+      match choosePath (flattenSignedInt v) ctx with
+      | some r => .ok (.opResult r (.step (.int v) ctx p))
+      | none => .error .path
+  | .step (.qstr _ v) ctx p => .ok (.step (.int (Int.ofNat (Bytes.toNatBE v))) ctx p)
+  | .step (.atom v) ctx p => .ok (.step (.int (Int.ofNat (Bytes.toNatBE v))) ctx p)
   | .step .nil ctx p => .ok (.opResult .nil (.step .nil ctx p))
   | .step (.cons a b) ctx p => stepCons hr m pm a b ctx p
   | .op head ctx tail (some (x :: rest)) p => .ok (.step x ctx (.op head ctx tail (some rest) p))
@@ -322,24 +331,21 @@ def NoFuelOps (ops : OpSem) : Prop := ∀ op args, ops.apply op args ≠ .error 
 
 def bytesOfInt (m : Mode) (i : Int) : Bytes := if m && i == 0 then [] else Bytes.ofInt i
 
-/-- a path spelled as an integer -/
-def intPathFlags (v : Int) : List Flag :=
-  if flattenSignedInt v = 0 then [.zeroPath] else []
+/-- an operator integer that `translate_head` replaces by the opcode of the name it spells -/
+def intHeadFlags (pm : PrimMap) (i : Int) : List Flag :=
+  if (pm.lookup (Bytes.ofInt i)).isSome && !isOpcode pm i then [.intSpellsName] else []
 
-/-- a path spelled as an atom / string: the stepper reads `number_from_u8` then flattens -/
-def bytesPathFlags (v : Bytes) : List Flag :=
-  (if flattenSignedInt (Bytes.toInt v) = 0 then [.zeroPath] else []) ++
-  (if flattenSignedInt (Bytes.toInt v) ≠ Bytes.toNatBE v then [.nonCanonicalPath] else [])
-
+/-- (the last case is the empty atom in legacy mode only, see `StepLemmas.legacyZero_head`) -/
 def bytesHeadFlags (m : Mode) (pm : PrimMap) (v : Bytes) : List Flag :=
   if (pm.lookup v).isSome then [.opByName]
-  else if (pm.lookup (Bytes.ofInt (Bytes.toInt v))).isSome then [.intIsName]
-  else if bytesOfInt m (Bytes.toInt v) ≠ v then [.nonCanonicalOp] else []
+  else if !Bytes.canonical v then [.refusedOp]
+  else if intHeadFlags pm (Bytes.toInt v) ≠ [] then intHeadFlags pm (Bytes.toInt v)
+  else if bytesOfInt m (Bytes.toInt v) ≠ v then [.legacyZero] else []
 
 def headFlags (m : Mode) (pm : PrimMap) : Rich → List Flag
   | .cons _ _ => [.headIsPair]
   | .nil => [.nilHead]
-  | .int i => if (pm.lookup (Bytes.ofInt i)).isSome then [.intIsName] else []
+  | .int i => intHeadFlags pm i
   | .atom v => bytesHeadFlags m pm v
   | .qstr _ v => bytesHeadFlags m pm v
 
@@ -354,15 +360,15 @@ def terminator : Rich → Rich
 /-- the head of a non-pair, non-nil operator as `translate_head` returns it -/
 def translateAtomHead (pm : PrimMap) : Rich → Rich
   | .int i => translateInt pm i
-  | .atom v => translateBytes pm v
-  | .qstr _ v => translateBytes pm v
+  | .atom v => translateInt pm (Bytes.toInt v)
+  | .qstr _ v => translateInt pm (Bytes.toInt v)
   | r => r
 
 /-- flags of the step about to be taken from a configuration. -/
 def stepFlags (m : Mode) (pm : PrimMap) : Config → List Flag
-  | .step (.int v) _ _ => intPathFlags v
-  | .step (.atom v) _ _ => bytesPathFlags v
-  | .step (.qstr _ v) _ _ => bytesPathFlags v
+  | .step (.int _) _ _ => []
+  | .step (.atom _) _ _ => []
+  | .step (.qstr _ _) _ _ => []
   | .step .nil _ _ => []
   | .step (.cons a b) _ _ =>
     if headFlags m pm a ≠ [] then headFlags m pm a
